@@ -398,6 +398,7 @@ class Net(OpaqueNode):
                 axes.append("Gt")
                 if not pt_.is_const():
                     deps.add("Gt")
+                deps |= {x_ for x_ in pt_.deps() if alg.is_ad_tag(x_)}
         else:
             slots.append("t=absent")
         x = to_at(x)
@@ -416,6 +417,7 @@ class Net(OpaqueNode):
             else:
                 axes.append(f"G{j}")
                 deps.add(f"G{j}")
+                deps |= {x_ for x_ in px.deps() if alg.is_ad_tag(x_)}
         deps |= fp_deps(fp)
         shape = tuple(a for a in axes if isinstance(a, int)) + (self.m,)
         dat = np.empty(shape, dtype=object)
@@ -1162,6 +1164,12 @@ def _meshgrid(*vecs, indexing="xy", **kw):
 
 
 def _divmod_model(a, b):
+    try:
+        ia, ib = _dim(a), _dim(b)
+        if isinstance(ia, int) and isinstance(ib, int) and ib != 0:
+            return divmod(ia, ib)                # concrete operands (e.g. the index of an unrolled scan)
+    except Exception:
+        pass
     return Sym('floordiv', fz(a), fz(b)), Sym('mod', fz(a), fz(b))
 
 
@@ -1651,7 +1659,7 @@ def make_world_externals(world_ref):
         Exception=Exception, UserWarning=UserWarning, DeprecationWarning=DeprecationWarning,
         classmethod=ClassMethodW, staticmethod=StaticMethodW, property=PropertyW,
         Ellipsis=Ellipsis, NotImplemented=NotImplemented, object=object, repr=repr, id=id, chr=chr, ord=ord,
-        round=_round, divmod=divmod, iter=iter, next=next, pow=lambda a, b, *m: a ** b,
+        round=_round, divmod=lambda a, b: _divmod_model(a, b) if not (isinstance(a, int) and isinstance(b, int)) else divmod(a, b), iter=iter, next=next, pow=lambda a, b, *m: a ** b,
     )
     builtins['None'] = None
     builtins['True'] = True
